@@ -14,6 +14,7 @@ import (
 	"strconv"
 	"strings"
 	"sync"
+	"sync/atomic"
 	"testing"
 	"testing/synctest"
 	"time"
@@ -683,6 +684,7 @@ type agg struct {
 	violOrder  []string
 	infra      []string
 	perCheck   map[string]int64
+	cutShort   bool // stopped early after many hangs
 }
 
 type violRec struct {
@@ -733,6 +735,12 @@ func parentMain(c *Ctx) int {
 		n, _ := strconv.Atoi(v)
 		hangLimit = time.Duration(n) * time.Second
 	}
+	// The first hang is waited for in full. Once a hang is on record the run has failed anyway:
+	// further hanging units are given up on sooner (halved each time, never below 20 s), and
+	// after 24 of them the workers stop starting new children.
+	var hangNS atomic.Int64
+	hangNS.Store(int64(hangLimit))
+	var hangs atomic.Int64
 	deadline := time.Time{}
 	if v := os.Getenv("VERIF_BUDGET_S"); v != "" {
 		n, _ := strconv.Atoi(v)
@@ -745,9 +753,23 @@ func parentMain(c *Ctx) int {
 			from := 0
 			restarts := 0
 			for {
-				last, done, tail, hung := runChild(c, pd, us, k, w, from, a, &mu, hangLimit, deadline)
+				if hangs.Load() >= 24 {
+					mu.Lock()
+					a.cutShort = true
+					mu.Unlock()
+					return
+				}
+				last, done, tail, hung := runChild(c, pd, us, k, w, from, a, &mu, &hangNS, deadline)
 				if done {
 					return
+				}
+				if hung {
+					hangs.Add(1)
+					if n := hangNS.Load() / 2; n >= int64(20*time.Second) {
+						hangNS.Store(n)
+					} else {
+						hangNS.Store(int64(20 * time.Second))
+					}
 				}
 				// the child died while executing unit `last`
 				mu.Lock()
@@ -886,6 +908,9 @@ func parentMain(c *Ctx) int {
 	for _, l := range lines {
 		fmt.Println(l)
 	}
+	if a.cutShort {
+		fmt.Println("NOTE: the run was cut short after 24 units hung; the units not executed are not covered by this result")
+	}
 	fmt.Printf("SUMMARY property=%s tier=%s runs=%d evals=%d distinct_cases=%d distinct_traces=%d distinct_schedules=%d faults=%v wall=%.1fs violations=%d\n",
 		pd.ID, c.Tier, a.runs, a.evals, len(a.cases)+len(a.nontrivial), len(a.traces), len(a.scheds), a.faults, wall, nViol)
 	if len(a.infra) > 0 {
@@ -947,7 +972,7 @@ func crashSite(tail string) string {
 	return msg + "@" + site
 }
 
-func runChild(c *Ctx, pd *PropDef, us []unit, k, w, from int, a *agg, mu *sync.Mutex, hangLimit time.Duration, deadline time.Time) (last int, done bool, tail string, hung bool) {
+func runChild(c *Ctx, pd *PropDef, us []unit, k, w, from int, a *agg, mu *sync.Mutex, hangNS *atomic.Int64, deadline time.Time) (last int, done bool, tail string, hung bool) {
 	last = -1
 	cmd := selfCmd(c, "child", pd.ID, fmt.Sprintf("VERIF_SLICE=%d/%d/%d", k, w, from))
 	out, err := cmd.StdoutPipe()
@@ -979,7 +1004,7 @@ func runChild(c *Ctx, pd *PropDef, us []unit, k, w, from int, a *agg, mu *sync.M
 				lastMu.Lock()
 				idle := time.Since(lastAt)
 				lastMu.Unlock()
-				if idle > hangLimit {
+				if idle > time.Duration(hangNS.Load()) {
 					hungFlag = true
 					cmd.Process.Kill()
 					return
@@ -1048,7 +1073,7 @@ func runChild(c *Ctx, pd *PropDef, us []unit, k, w, from int, a *agg, mu *sync.M
 	if hungFlag && memFlag > 0 {
 		tail = fmt.Sprintf("TIMEOUT: memory runaway, resident set %d MB while executing one plan\n", memFlag) + tail
 	} else if hungFlag {
-		tail = "TIMEOUT: no progress for " + hangLimit.String() + "\n" + tail
+		tail = "TIMEOUT: no progress for " + time.Duration(hangNS.Load()).String() + "\n" + tail
 	}
 	return last, false, tail, hungFlag
 }
